@@ -329,8 +329,10 @@ def run(tier):
     deep = [c for c in cfgs if c['w'] == 2 and (tier == 'thorough' or (c['kind'] == 'cache' and not c['copies']))]
     _e2.run_matrix('C09', 'oracle_isolated', [(c, 'L', 2) for c in deep], res,
                    'threads on one cold cache entry: every source line, preemption bound 2', cap=200000)
-    _e2.run_matrix('C09', 'oracle_isolated', [(c, 'L', 1) for c in cfgs if c['w'] == 2 and c not in deep], res,
-                   'threads on one cold cache entry: every source line, preemption bound 1', cap=60000)
+    shallow = [c for c in cfgs if c['w'] == 2 and c not in deep]        # empty in the thorough tier: all are in `deep`
+    if shallow:
+        _e2.run_matrix('C09', 'oracle_isolated', [(c, 'L', 1) for c in shallow], res,
+                       'threads on one cold cache entry: every source line, preemption bound 1', cap=60000)
     res.violations.sort(key=lambda v: (len(v.replay.get('history', [])), v.key))
     cov = res.coverage
     total['states'] += cov.get('states', 0)
